@@ -23,7 +23,7 @@ import enc
 from automata.fa.dfa import DFA
 from props.common import load_def, outcome
 
-RULE = ("every constructor x parameter set: all patterns of length <= 4 over alphabets of 1-3 symbols (self-overlapping ones "
+RULE = ("every constructor x parameter set: all patterns of length <= 4 over alphabets of 1-3 symbols (plus a two-symbol alphabet outside Latin-1 with patterns of length <= 2; self-overlapping ones "
         "included) x every flag combination for from_prefix/from_suffix/from_substring/from_subsequence; of_length lo 0-4 x "
         "hi None/0-4 x every counted-symbol subset; count_mod k 1-4 x every remainder subset x every counted subset; "
         "nth_from_start/nth_from_end n 1-3 x every symbol; universal/empty; random pattern sets (1-4 patterns, length <= 3, "
@@ -755,6 +755,9 @@ def run(ctx):
     for sigma in ("a", "ab", "abc"):
         cases += pattern_cases(sigma, 4)
         cases += numeric_cases(sigma, 4, 4, 5 if thorough else 3)
+    # symbols outside Latin-1: equal strings are then separate objects (every iteration over a str builds new ones)
+    cases += pattern_cases("\u03bb\u2192", 2 if not thorough else 3)
+    cases += numeric_cases("\u03bb\u2192", 2, 2, 3)
     if thorough:
         cases += pattern_cases("ab", 6)[len(pattern_cases("ab", 4)):]
         cases += pattern_cases("xyz", 5)[len(pattern_cases("xyz", 4)):]
